@@ -535,5 +535,5 @@ def replay(ctx, path):
 
 MANIFEST = dict(
     technique='Coq proof (recursive closure wiring refines the per-node semantics tabulated along a topological order; non-interference; over an abstract expression evaluator, instantiated with the evaluator of the check) with model/code correspondence on generated DRGs',
-    text='Theorems (coq/Props/C04.v, closed under the global context) for every acyclic requirement graph (inputs, decisions, knowledge models requiring knowledge models and services, decision services with input/encapsulated/output decisions), every node, every input context and every fuel >= |graph|, over ANY expression evaluator that uses its service call-back extensionally: the recursive closures of decision.rs / business_knowledge_model.rs / decision_service.rs compute the semantics tabulated once per node in topological order (so diamonds agree and fuel is irrelevant), that semantics is a fixed point of the closure body, the logic of a decision sees exactly its required inputs, the function values of its knowledge closure and the own value of each required decision (C04_decision_scope / C04_decision_sees), a decision service returns the values of its output decisions (C04_service_outputs), and input entries outside the requirement closure of the invoked element have no influence. Tied to the code by generated DMN documents (literal, boxed context, boxed invocation, relation logic; BKMs invoked literally and boxed; services as functions) evaluated through evaluate_invocable against the model instantiated with a tiny evaluator; non-interference is also judged on the implementation alone.',
+    text='Theorems (coq/Props/C04.v, closed under the global context) for every acyclic requirement graph (inputs, decisions, knowledge models requiring knowledge models and services, decision services with input/encapsulated/output decisions), every node, every input context and every fuel >= |graph|, over ANY expression evaluator that uses its service call-back extensionally: the recursive closures of decision.rs / business_knowledge_model.rs / decision_service.rs compute the semantics tabulated once per node in topological order (so diamonds agree and fuel is irrelevant), that semantics is a fixed point of the closure body, the logic of a decision sees exactly its required inputs, the function values of its knowledge closure and the own value of each required decision (C04_decision_scope / C04_decision_sees), a decision service returns the values of its output decisions (C04_service_outputs), and input entries outside the requirement closure of the invoked element have no influence. The tiny evaluator is tied to the FEEL evaluator model of C01 (C04_teval_is_feel_eval, coq/C04/LinkC01.v): on null, numbers, strings, names, + *, literal invocation of knowledge-model function values and boxed contexts with or without result entry it equals, up to the sign of zero, C01 eval_spec and the scope-stack machine run_impl on the translated expression and environment, whenever the evaluation stays in that fragment within 60 levels with sums and products of at most 34 digits, no string concatenation and distinct formal parameter names (C04_teval_feel_corners shows the two models differ outside these hypotheses, the real code siding with C01). Tied to the code by generated DMN documents (literal, boxed context, boxed invocation, relation logic; BKMs invoked literally and boxed; services as functions) evaluated through evaluate_invocable against the model instantiated with a tiny evaluator; non-interference is also judged on the implementation alone.',
     note='Trusted: Coq kernel + vm_compute, hand-written model of the wiring (correspondence-checked, not verified), the tiny evaluator standing for the FEEL evaluator on the generated expression fragment, harness. Interpretive choices listed in the evidence (input entries named like a required decision override it; service input decisions are parameters). Decision tables and boxed function definitions as logic are not generated (C03 / C01).')
